@@ -15,16 +15,29 @@ import (
 type Class int
 
 const (
-	ANY    Class = iota // any byte
-	REG                 // 0x20..0x7E plus '\n' interior and isolated
-	REGNN               // 0x20..0x7E
-	TOK                 // 0x01..0x08
-	NOMARK              // any byte but 0xE2
-	LOWER               // 'a'..'z'
-	HOST                // any byte but 0xE2 and 0x01..0x08
+	ANY      Class = iota // any byte
+	REG                   // 0x20..0x7E plus '\n' interior and isolated
+	REGNN                 // 0x20..0x7E
+	TOK                   // 0x01..0x08
+	NOMARK                // any byte but 0xE2
+	LOWER                 // 'a'..'z'
+	HOST                  // any byte but 0xE2 and 0x01..0x08
+	MARKTOK               // a redaction marker followed by a token byte (4 bytes)
+	MARK2                 // marker, printable byte, marker (7 bytes)
+	NEARMARK              // U+2038 or U+203B (3 bytes)
 )
 
+func isMarker(s string) bool { return s == "\u2039" || s == "\u203a" }
+
 func classOK(c Class, s string) bool {
+	switch c {
+	case MARKTOK:
+		return len(s) == 4 && isMarker(s[:3]) && s[3] >= 1 && s[3] <= 8
+	case MARK2:
+		return len(s) == 7 && isMarker(s[:3]) && s[3] >= 0x20 && s[3] <= 0x7e && isMarker(s[4:])
+	case NEARMARK:
+		return s == "\u2038" || s == "\u203b"
+	}
 	for i := 0; i < len(s); i++ {
 		b := s[i]
 		switch c {
@@ -162,6 +175,9 @@ func (v *V) Bool(name string) bool { return v.lookup(name).(int64) != 0 }
 
 func (v *V) Str(name string, c Class, min, max int) string {
 	s := v.lookup(name).(string)
+	if c >= MARKTOK {
+		min, max = 0, 16
+	}
 	if len(s) < min || len(s) > max || !classOK(c, s) {
 		panic(spurious{"string outside class " + name})
 	}
